@@ -861,8 +861,12 @@ class Exec:
                 q = sp.floor(a / b)
                 return q if isinstance(op, ast.FloorDiv) else a - q * b
             raise SymExError(f"symbolic // or % at line {node.lineno}")
-        if isinstance(op, (ast.BitAnd, ast.BitOr)):
-            raise SymExError("bit op on numbers")
+        if isinstance(op, (ast.BitAnd, ast.BitOr, ast.BitXor, ast.LShift, ast.RShift)):
+            if isinstance(a, sp.Expr) and isinstance(b, sp.Expr) and a.is_Integer and b.is_Integer:
+                x, y = int(a), int(b)
+                return sp.Integer({ast.BitAnd: x & y, ast.BitOr: x | y, ast.BitXor: x ^ y, ast.LShift: x << y if isinstance(op, ast.LShift) else 0,
+                                   ast.RShift: x >> y if isinstance(op, ast.RShift) else 0}[type(op)])
+            raise SymExError("bit operation on symbolic numbers")
         raise SymExError(f"binary operator {type(op).__name__}")
 
     def power(self, a, b, node):
